@@ -375,4 +375,137 @@ theorem runBuiltin_raise_is_raiseSig (f sc : Nat) (node : Node) (t : Tok) (args 
   rw [runBuiltin.eq_def]; simp [ht]
   rfl
 
+/-! ### string literals and the decision of a typed clause -/
+
+/-- a raw string literal evaluates to its token text -/
+theorem eval_string_raw (f sc : Nat) (n : Node) (t : Tok) (h : n.name = "string") (ht : n.tok = some t)
+    (hr : t.allowEscapes = false) : eval (f+1) sc n = pure (.str t.val) := by
+  rw [eval]; simp [h, tokOf, ht, hr]
+
+/-- an interpolating literal without `{{` evaluates to its token text -/
+theorem eval_string_plain (f sc : Nat) (n : Node) (t : Tok) (h : n.name = "string") (ht : n.tok = some t)
+    (hm : segIdx [123, 123] t.val = none) : eval (f+2) sc n = pure (.str t.val) := by
+  rw [eval]; simp only [h, tokOf, ht, pure_bind]
+  by_cases ha : t.allowEscapes = true
+  · simp [ha, interpolate, hm]
+  · simp [ha]
+
+/-- `n` is a string literal that evaluates, without effects and at any fuel ≥ 2, to the text `v` -/
+def PlainStr (n : Node) (v : List Nat) : Prop := ∀ f sc, eval (f+2) sc n = pure (.str v)
+
+theorem PlainStr.of_raw {n : Node} {t : Tok} (h : n.name = "string") (ht : n.tok = some t)
+    (hr : t.allowEscapes = false) : PlainStr n t.val := fun f sc => eval_string_raw (f+1) sc n t h ht hr
+theorem PlainStr.of_plain {n : Node} {t : Tok} (h : n.name = "string") (ht : n.tok = some t)
+    (hm : segIdx [123, 123] t.val = none) : PlainStr n t.val := fun f sc => eval_string_plain f sc n t h ht hm
+
+theorem typedMatch_values (ty : String) (nm : List Nat → String) (vals : List (List Nat)) :
+    typedMatch ty nm (vals.map fun v => (pure (.str v) : M Val)) = pure (vals.any fun b => nm b == ty) := by
+  induction vals with
+  | nil => rfl
+  | cons v vs ih =>
+    simp only [List.map_cons, typedMatch, pure_bind, List.any_cons]
+    by_cases hb : (nm v == ty) = true
+    · simp [hb]
+    · simp [hb, ih]
+
+/-- the text of a literal node -/
+def textOf (n : Node) : List Nat := (n.tok.map (·.val)).getD []
+
+theorem map_eval_plain (f sc : Nat) (strs : List Node) (h : ∀ x ∈ strs, PlainStr x (textOf x)) :
+    (strs.map fun ch => eval (f+2) sc ch) = (strs.map textOf).map fun v => (pure (.str v) : M Val) := by
+  rw [List.map_map]
+  exact List.map_congr_left fun x hx => h x hx f sc
+
+/-- **a typed clause handles an error iff the type of the error is one of the listed types** (type
+    strings that are plain literals): it then runs its block, otherwise declines without any effect -/
+theorem exceptHandler_typed_decides (f sc : Nat) (c s0 st : Node) (ss : List Node) (e : Sig)
+    (hc : c.children = ((s0 :: ss) ++ [st]).map some) (hs : ∀ x ∈ s0 :: ss, x.name = "string")
+    (hst : st.name = "statements") (hv : ∀ x ∈ s0 :: ss, PlainStr x (textOf x)) :
+    exceptHandler (f+3) sc c e = (
+      if ((s0 :: ss).map textOf).any (fun b => bytesToString b == errType e) then do
+        let evs ← newChild sc (← scopeName c)
+        let _ ← eval (f+2) evs st
+        pure (some Val.null)
+      else pure none) := by
+  rw [exceptHandler_typed (f+2) sc c s0 st ss e hc hs hst, map_eval_plain f sc _ hv, typedMatch_values]
+  simp
+
+/-! ### the loop-variable binder raises no loop signal -/
+
+theorem not_signal_of_fatal {e : Sig} (h : e.isFatal = true) : e.isBreak = false ∧ e.isContinue = false := by
+  cases e <;> simp_all [Sig.isFatal, Sig.isBreak, Sig.isContinue]
+
+theorem rtErr_runtime_not_signal (n : Node) :
+    (rtErr "Runtime error" n).isBreak = false ∧ (rtErr "Runtime error" n).isContinue = false := by
+  unfold rtErr; cases n.tok <;> simp [Sig.isBreak, Sig.isContinue, tBreak, tContinue]
+
+/-! ### `for [a, b, …] in e` -/
+
+theorem mapM_some_ok {β : Type} (g : Option Node → M β) (k : Node → β) : ∀ (l : List Node),
+    (∀ x ∈ l, g (some x) = pure (k x)) → (l.map some).mapM g = pure (l.map k)
+  | [], _ => rfl
+  | x :: xs, h => by
+    simp only [List.map_cons, List.mapM_cons, h x (by simp), pure_bind,
+      mapM_some_ok g k xs (fun y hy => h y (by simp [hy]))]
+
+/-- **eval_iterloop_is_iterLoop** (several loop variables, the `for [k, v] in map` form) -/
+theorem evalLoop_is_iterLoop_list (f sc : Nat) (n c0 iv it body : Node) (ids : List Node)
+    (hc : n.children = [some c0, some body]) (h0 : c0.name = "in") (h0c : c0.children = [some iv, some it])
+    (hiv : iv.name = "list") (hivc : iv.children = ids.map some)
+    (hids : ∀ x ∈ ids, x.name = "identifier" ∧ x.children = [] ∧ ∃ t, x.tok = some t) :
+    evalLoop (f+1) sc n = (do
+      let ls ← newChild sc (← scopeName n)
+      withFreshIs (do
+        let start ← loopStart f ls it
+        iterLoop (iterNext f ls n it) (bindLoopVars ls n (ids.map textOf)) (eval f ls body) f start)) := by
+  have hk : ∀ g : Option Node → M (List Nat), (∀ x ∈ ids, g (some x) = pure (textOf x)) →
+      iv.children.mapM g = pure (ids.map textOf) := by
+    intro g hg; rw [hivc]; exact mapM_some_ok g textOf ids hg
+  rw [evalLoop]
+  simp only [hc, child, List.getElem?_cons_zero, pure_bind, h0, beq_self_eq_true, if_true, h0c, hiv]
+  rw [hk _ (by
+    intro x hx
+    obtain ⟨h1, h2, t, h3⟩ := hids x hx
+    simp [h1, h2, tokOf, h3, textOf])]
+  simp [loopStart]
+  rfl
+
+theorem eval_iterloop_is_iterLoop_list (f sc : Nat) (n c0 iv it body : Node) (ids : List Node) (h : n.name = "loop")
+    (hc : n.children = [some c0, some body]) (h0 : c0.name = "in") (h0c : c0.children = [some iv, some it])
+    (hiv : iv.name = "list") (hivc : iv.children = ids.map some)
+    (hids : ∀ x ∈ ids, x.name = "identifier" ∧ x.children = [] ∧ ∃ t, x.tok = some t) :
+    eval (f+2) sc n = (do
+      let ls ← newChild sc (← scopeName n)
+      withFreshIs (do
+        let start ← loopStart f ls it
+        iterLoop (iterNext f ls n it) (bindLoopVars ls n (ids.map textOf)) (eval f ls body) f start)) := by
+  rw [eval_loop _ _ _ h, evalLoop_is_iterLoop_list f sc n c0 iv it body ids hc h0 h0c hiv hivc hids]
+
+/-! ### statement sequences -/
+
+/-- evaluating statements in order; the value is the value of the last one -/
+def seqEval (f sc : Nat) : List Node → Val → M Val
+  | [], r => pure r
+  | c :: cs, _ => do
+    let v ← eval f sc c
+    seqEval f sc cs v
+
+theorem forIn_seq (f sc : Nat) (g : Option Node → Val → M (ForInStep Val))
+    (hg : ∀ c r, g (some c) r = (do let v ← eval f sc c; pure (ForInStep.yield v))) :
+    ∀ (cs : List Node) (r : Val), forIn (cs.map some) r g = seqEval f sc cs r
+  | [], r => rfl
+  | c :: cs, r => by
+    simp only [List.map_cons, List.forIn_cons, hg, bind_assoc, pure_bind, seqEval]
+    congr; funext v
+    exact forIn_seq f sc g hg cs v
+
+/-- **eval_statements**: a `statements` node evaluates its children in order with the same fuel and scope;
+    the first signal of a child ends the sequence (monadic bind), the value is that of the last child -/
+theorem eval_statements (f sc : Nat) (n : Node) (cs : List Node) (h : n.name = "statements")
+    (hc : n.children = cs.map some) : eval (f+1) sc n = seqEval f sc cs Val.null := by
+  rw [eval]
+  simp only [h, hc]
+  rw [forIn_seq f sc _ (fun c r => by simp) cs Val.null]
+  simp
+
 end Ecal.Ev
